@@ -189,7 +189,7 @@ func (dc *DomConverter) visitElementNodeHandler(node *html.Node) bool {
 		// If anchor has Javascript and only contains simple text content, we treat it as text node.
 		if strings.HasPrefix(href, "javascript:") {
 			linkChildNodes := dom.ChildNodes(node)
-			if len(linkChildNodes) == 1 && linkChildNodes[0].Type == html.TextNode {
+			if len(linkChildNodes) == 1 && linkChildNodes[0].Type == html.TextNode && node.Parent != nil {
 				textNode := linkChildNodes[0]
 
 				// Replace node with the text node
